@@ -344,7 +344,7 @@ impl Session {
                     self.apply_ref(&o);
                 }
             }
-            Op::ScrollRegion(..) | Op::ScrollOffset(_) | Op::Tearing(_) => {}
+            Op::ScrollRegion(..) | Op::ScrollOffset(_) | Op::Tearing(_) | Op::DcsBorrow => {}
         }
     }
 
